@@ -26,22 +26,33 @@ CFG = {
         "generator-written documents and FromGeoJSON on generic trees, all compared exactly (bit patterns, error kinds)",
         "encoding/json text: the bytes json.Marshal writes for Geometry{Type, Coordinates: typed float slices} are modelled by renderGeometry "
         "(Text.lean) and compared byte-for-byte on every encoded case, with the number formatter := encoding/json's own rendering of each coordinate",
-        "encoding/json number text: Marshal writes for a finite float64 a decimal that ParseFloat reads back to the same bits (stdlib contract); "
-        "measured on every encoded coordinate by the driver's exact decimal->binary64 rounding (lean/GeomV/C17/Dec.lean), which is itself "
-        "cross-validated against strconv.ParseFloat by the C17 check",
+        "encoding/json number text: NO LONGER a hypothesis for the real bytes - the driver evaluates the certificate textCert on every enc case "
+        "(each coordinate's rendering is a non-empty numeric token that the RFC 8259 grammar + exact decimal->binary64 converter reads back to "
+        "exactly that coordinate; text = renderGeometry byte for byte) and C06_text_cert proves a certified text parses to the RFC 7946 object "
+        "of g; C06_text_value/C06_denotes_unique (via lean/GeomV/C17/DecProofs.lean, DecMono.lean: Dec.toBits is IEEE round-to-nearest-even of "
+        "the literal's exact rational value) give the arithmetic meaning. Trusted: that json.Marshal's rendering of a lone float64 (the table) is "
+        "what it writes inside the document - checked by the byte comparison with renderGeometry",
         "encoding/json object decoding as modelled in `unmarshal` (case-insensitive field match incl. U+017F/U+212A, last duplicate wins, null is a "
         "no-op for string fields, unknown members skipped): exercised by generated documents",
         "the reading of RFC 7946 section 3.1 into lean/GeomV/C06/Spec.lean",
         "harness/cmd/c06 + lean driver + lib/vcheck.py transport inputs faithfully",
     ],
-    "assumptions": ["nil slices and empty slices are not distinguished (Encode writes [] for both: pointsCoordinates uses make)",
-                    "the nil interface value is outside the property (ToGeoJSON(nil) panics in reflect.TypeOf(nil).String())"],
+    "assumptions": ["nil slices and empty slices are not distinguished by the model (Encode writes [] for both: pointsCoordinates uses make); nil "
+                    "slices at every level are exercised",
+                    "the nil interface value is outside the property: ToGeoJSON(nil)/Encode(nil) panic in reflect.TypeOf(nil).String() - modelled "
+                    "as Err.panicNil (C06_nil) and exercised (tog/enc/rt NIL lines must panic; FromGeoJSON(nil) must return a runtime error)",
+                    "cc lines: schedules are not enumerated - 8 callers x 6..40 rounds against 8 noise goroutines per line"],
     "rule": "fixed corpus (each type, later-empty members, first-empty members, unsupported, non-finite, exponent boundaries 1e21/1e-6 of "
             "encoding/json, -0, subnormals, 17-digit values, integers above 2^53) + generated geometries of the six types (member counts "
             "{1,2,3,5}, occasionally 120 vertices; 'wide' geometries with 65/129/257/1025 members at exactly one nesting level; 50% with later members possibly empty; 5% first member empty; 5% one non-finite coordinate; "
             "5% GeometryCollection/*Bounds), each giving a ToGeoJSON, an Encode and a Decode(Encode) case; plus generator-written JSON documents "
             "(key order/case/escapes, duplicates, foreign members, white space, alternative number spellings, perturbed nesting/arity) decoded "
-            "at text level (Decode) and tree level (FromGeoJSON). plus batch lines (a history of 2..8 Encode calls whose returned slices are kept and re-verified after the whole batch); distinct = distinct input line; non-trivial = verdict class not 'skipped'",
+            "at text level (Decode) and tree level (FromGeoJSON). plus batch lines (a history of 2..8 Encode calls whose returned slices are kept and re-verified after the whole batch); plus edge ordinates (about 700 values: +-2^k with float neighbours and +-1/+-0.5 at the int32/uint32/int64/uint64/2^53 conversion edges, 10^k, "
+            "extreme finite values, subnormals, many-digit integers) in every type at X/Y, first/later position, first/later member; nil interface and "
+            "nil slices; Feature/FeatureCollection/crs/bbox/foreign-member/3-D documents; about 250 texts that are NOT JSON (hand-written + one random "
+            "byte edit of a good document: the driver's total parser rejects <=> SyntaxError) and overflowing literals in stored vs skipped members; "
+            "dbatch lines (kept Decode results re-read after later calls, windows beyond 4096/8192 vertices); cc lines (concurrent callers vs the "
+            "answer computed alone); wide geometries up to 2049 (thorough 4097) members; distinct = distinct input line; non-trivial = verdict class not 'skipped'",
     "timeout": {"quick": 600, "thorough": 3000},
     "explanation": "SPEC verdicts: the bytes Encode returns are parsed by the total RFC 8259 parser of Text.lean (the one the text-level theorems are about) (numbers converted by exact "
                    "round-to-nearest-even) and must be read back to the input geometry bit-for-bit by the independent RFC 7946 reader "
